@@ -28,7 +28,7 @@ def main():
     meta = json.load(open(os.path.join(seed, "meta.json")))
     prop = meta["property"]
     scratch = "/tmp/se-" + name
-    base = meta.get("base_commit") or {"a": "cda5f78", "b": "cda5f78", "c": "8205bff", "d": "8205bff", "e": "1993990", "f": "1993990", "g": "1883fef", "h": "1883fef", "i": "5d51b70", "j": "5d51b70"}.get(name[-1], "5183d5e")
+    base = meta.get("base_commit") or {"a": "cda5f78", "b": "cda5f78", "c": "8205bff", "d": "8205bff", "e": "1993990", "f": "1993990", "g": "1883fef", "h": "1883fef", "i": "5d51b70", "j": "5d51b70", "k": "5183d5e", "l": "5183d5e"}.get(name[-1], "ef7faeb")
     meta["base_commit"] = base
 
     def fresh(commit=None):
